@@ -2462,7 +2462,7 @@ pub fn check_all(out: &RunOut) -> Vec<Violation> {
         "C16" => {
             check_c16(&ix, &mut v);
         }
-        "C07" => {
+        "C07" | "C07X" => {
             check_c07(&ix, &mut v);
             check_c15(&ix, &mut v);
         }
